@@ -17,9 +17,9 @@ class Lexer:
 
     def __init__(self, text: str, *, path: "Optional[str]" = PATH_STRING) -> None:
         self.text = text
-        self.file_lines = text.splitlines()
-        if self.text.endswith("\n"):
-            self.file_lines.append("")
+        # Lines are counted by "\n" alone (see next_char), so the text has to be split in
+        # the same way: splitlines() would also break at form feeds and the like.
+        self.file_lines = [line.rstrip("\r") for line in text.split("\n")]
         self.position = 0
         self.line = 1
         self.column = 1
